@@ -505,6 +505,11 @@ def _collect_binding_information_from_equal(
     if all(i.ast_type == ASTType.Function and i.name == "" and i.arguments for i in (lhs, rhs)) and len(
         lhs.arguments
     ) == len(rhs.arguments):
+        lhs_vars = set(collect_ast(lhs, "Variable"))
+        rhs_vars = set(collect_ast(rhs, "Variable"))
+        if not (lhs_vars <= bound_variables or rhs_vars <= bound_variables):
+            # gringo only matches a tuple against a tuple whose variables are all bound
+            return bound_variables, unbound_variables - bound_variables
         for left, right in zip(lhs.arguments, rhs.arguments):
             bound, unbound = _collect_binding_information_from_equal(left, right, bound_variables)
             bound_variables.update(bound)
@@ -637,16 +642,22 @@ def collect_binding_information_body(
                 bound_variables.update(bound)
                 unbound_variables.update(unbound)
                 if stm.atom.ast_type in (ASTType.BodyAggregate, ASTType.Aggregate):
+                    # X = #agg { ... X ... } does not bind X
+                    inside_vars = set(chain(*map(lambda x: collect_ast(x, "Variable"), stm.atom.elements)))
                     if stm.atom.left_guard is not None:
+                        guard_vars = set(collect_ast(stm.atom.left_guard, "Variable"))
                         if stm.sign == Sign.NoSign and stm.atom.left_guard.comparison == ComparisonOperator.Equal:
-                            bound_variables.update(collect_ast(stm.atom.left_guard, "Variable"))
+                            bound_variables.update(guard_vars - inside_vars)
+                            unbound_variables.update(guard_vars & inside_vars)
                         else:
-                            unbound_variables.update(collect_ast(stm.atom.left_guard, "Variable"))
+                            unbound_variables.update(guard_vars)
                     if stm.atom.right_guard is not None:
+                        guard_vars = set(collect_ast(stm.atom.right_guard, "Variable"))
                         if stm.sign == Sign.NoSign and stm.atom.right_guard.comparison == ComparisonOperator.Equal:
-                            bound_variables.update(collect_ast(stm.atom.right_guard, "Variable"))
+                            bound_variables.update(guard_vars - inside_vars)
+                            unbound_variables.update(guard_vars & inside_vars)
                         else:
-                            unbound_variables.update(collect_ast(stm.atom.right_guard, "Variable"))
+                            unbound_variables.update(guard_vars)
                     for element in stm.atom.elements:
                         term_vars = set()
                         if stm.atom.ast_type == ASTType.BodyAggregate:
